@@ -225,11 +225,12 @@ func TestC08(t *testing.T) {
 // C15: what the API reports agrees with what the runner does.
 func TestC15(t *testing.T) {
 	cfg := &Cfg{Prop: "C15", MaxPipelines: 3, MaxTasks: 5, DelayPct: 30, ReplacePct: 30, CyclicPct: 10, ReservedPct: 8, AllowFailPct: 15, ContinuePct: 30,
-		LimitChoices: []int{-1, 0, 1, 2, 3}, Weights: map[string]int{"schedule": 36, "cancel": 10, "finish": 28, "timer": 10, "hold": 3, "release": 5, "reload": 6, "save": 5},
+		LimitChoices: []int{-1, 0, 1, 2, 3}, Weights: map[string]int{"schedule": 36, "cancel": 10, "finish": 28, "timer": 10, "hold": 3, "release": 5, "reload": 6, "save": 5, "restart": 3},
 		ReloadKinds: []string{"removePipeline", "removePipeline", "addPipeline", "addPipeline", "conc", "limit", "script", "delay", "rewire", "addTask"},
+		DiskStore:   true,
 		Armed:       map[string]bool{"C15": true}}
 	runHistories(t, histOpts{cfg: cfg, failPct: 20,
-		rule:       "general histories with reloads that remove and re-add pipelines and explicit saves (so that jobs of a removed pipeline are purged while they run and the pipeline comes back); at every quiescent point: schedulable flag read before each request vs. its acceptance (both directions), running flag vs. started-unfinished jobs vs. the runner log, every accepted job found by id, in IterateJobs and in GET /pipelines/jobs (newest first by true creation time), /job/detail 200/404, created<=start<=end, tasks after their dependencies and in the same order for every job of one definition; non-trivial = a quiescent point at which a pipeline is running or not schedulable; distinct by action trace",
+		rule:       "general histories with reloads that remove and re-add pipelines and explicit saves (so that jobs of a removed pipeline are purged while they run and the pipeline comes back), and probes in which a second runner is started from the saved state (its listing must agree with the jobs it reports: all terminal, so nothing running); at every quiescent point: schedulable flag read before each request vs. its acceptance (both directions), running flag vs. started-unfinished jobs vs. the runner log, every accepted job found by id, in IterateJobs and in GET /pipelines/jobs (newest first by true creation time), /job/detail 200/404, created<=start<=end, tasks after their dependencies and in the same order for every job of one definition; non-trivial = a quiescent point at which a pipeline is running or not schedulable; distinct by action trace",
 		nontrivial: func(c map[string]int) bool { return c["listing:busy-point"] > 0 }})
 }
 
